@@ -54,7 +54,7 @@ def debug_function(prop: str, func: str, timeout: float, verbose: bool):
             flag = "ok " if r.discharged else "FAIL"
             print("   %s %-90s %-8s %-10s %.2fs" % (flag, r.name, r.status, r.backend, r.time))
             if not r.discharged and verbose:
-                print("        path=%s %s %s" % (r.path, r.detail[:200], r.smt2_path))
+                print("        path=%s %s %s %s" % (r.path, r.detail[:100], r.smt2_path, r.info))
 
 
 def main(argv=None):
